@@ -103,8 +103,11 @@ def main(argv):
     props = load_props()
     P = props.PROPS[pid]
     timeout = P.get('timeout', {}).get(tier, 10 if tier == 'quick' else 120)
-    evidence_path = os.path.join(VERIF, 'evidence', pid + '.json')
-    replay_dir = os.path.join(VERIF, 'replays', pid)
+    # GOVC_SCRATCH_OUT: experiments on a modified /repo (seeded changes, reverted fixes) must not overwrite the
+    # evidence and replays of the registered checks
+    outroot = os.environ.get('GOVC_SCRATCH_OUT') or VERIF
+    evidence_path = os.path.join(outroot, 'evidence', pid + '.json')
+    replay_dir = os.path.join(outroot, 'replays', pid)
     os.makedirs(os.path.dirname(evidence_path), exist_ok=True)
     pool = get_pool(int(os.environ.get('GOVC_JOBS', '16')))
     violations = []     # (obligation name, replay path, suffix)
